@@ -117,7 +117,7 @@ def run_model_parallel(cases, jobs=8, timeout=900):
 # ---------------------------------------------------------------- implementation
 def setup_impl():
     """Make `nauyaca` importable from /repo/src (the working tree) and silence its logging."""
-    src = "/repo/src"
+    src = os.path.join(os.environ.get("NV_REPO", "/repo"), "src")   # NV_REPO: a scratch worktree, for trying seeded changes
     if src not in sys.path:
         sys.path.insert(0, src)
     import logging
